@@ -267,7 +267,9 @@ def handle (line : String) : String :=
   | ["api.label", h] => withHex h apiLabel
   | "api.name" :: ts => apiName ts
   | ["api.nev", n] => match parseNum n with
-    | some n => if n = 0 then "err" else s!"ok {n}"
+    | some n => match NEV.new (List.replicate n (0 : Nat)) with
+      | .ok v => s!"ok {v.toList.length}"
+      | .error _ => "err"
     | none => "bad-op"
   | ["api.tag", h] => withHex h fun b => strOp b .tag
   | ["api.psdn", h] => withHex h fun b => strOp b .psdn
